@@ -435,3 +435,71 @@ def sp4(P, C):
     if n == 0:
         raise core.AnalysisBroken("SP-4: no cholmod_l_rowdel call found in the fitter")
     return n
+
+
+def sp5(P, C):
+    """SP-5: a released row is added to a factor of exactly the rows that are in it."""
+    C.rule("SP-5", "modify_factor_p adds the released rows one at a time: in the iteration for H2[i] the free set F gains exactly that index "
+           "(F[nF++] = H2[i]) before get_column(A, H2[i], iPerm, F, nF) builds the column for cholmod_l_rowadd, and nothing else puts H2 "
+           "entries into F (no bulk copy in front of the loop). The column must have entries for the rows already in the factor plus the new "
+           "one: with later H2 rows in F as well, L is no longer the factor of A[F,F] as soon as two coupled rows are released together", floor=3)
+    from . import ts as _ts
+    fs_ = [f for f in P.fns("modify_factor_p") if f.unit.startswith("fitter/")]
+    if len(fs_) != 1:
+        raise core.AnalysisBroken("SP-5: modify_factor_p not found")
+    f = fs_[0]
+    adds = [i for i, cal in f.calls() if cal and cal["name"] == "cholmod_l_rowadd"]
+    if len(adds) != 1:
+        raise core.AnalysisBroken("SP-5: expected one cholmod_l_rowadd in modify_factor_p, found %d" % len(adds))
+    add = adds[0]
+    L = next((a for a in f.ancestors(add) if f.k(a) == "ForStmt"), None)
+    if L is None:
+        raise core.AnalysisBroken("SP-5: the row-add call is not in a loop")
+    # the column handed to rowadd
+    colarg = f.strip(f.args(add)[1])
+    gc = None
+    if f.k(colarg) == "DeclRefExpr":
+        cid = f.nodes[colarg]["decl"]["id"]
+        for x in f.walk(L):
+            ap = _ts.assign_parts(f, x)
+            if ap and ap[1] is not None and f.k(f.strip(ap[0])) == "DeclRefExpr" and f.nodes[f.strip(ap[0])]["decl"]["id"] == cid:
+                r = f.strip(ap[1])
+                if f.nodes[r].get("callee") and f.nodes[r]["callee"]["name"] == "get_column":
+                    gc = r
+    C.ob("SP-5", "modify_factor_p", "column-from-get_column", gc is not None, f.loc(add),
+         "the column for rowadd is get_column(%s) computed in the same iteration" % (", ".join(f.render(a) for a in f.args(gc)) if gc is not None else "?"))
+    if gc is None:
+        return
+    ga = f.args(gc)
+    row_txt = f.render(ga[1]).replace(" ", "")                         # H2[i]
+    set_id = f.nodes[f.strip(ga[3])]["decl"]["id"] if f.k(f.strip(ga[3])) == "DeclRefExpr" else None     # F
+    cnt_id = f.nodes[f.strip(ga[4])]["decl"]["id"] if f.k(f.strip(ga[4])) == "DeclRefExpr" else None     # nF
+    # the growth of the free set inside the loop: F[nF++] = H2[i], before get_column
+    grow = []
+    for x in f.walk(f.nodes[L]["body"]):
+        ap = _ts.assign_parts(f, x)
+        if ap and ap[1] is not None and f.nodes[x].get("op") == "=":
+            l = f.strip(ap[0])
+            if f.k(l) == "ArraySubscriptExpr" and f.k(f.strip(f.nodes[l]["ch"][0])) == "DeclRefExpr" and f.nodes[f.strip(f.nodes[l]["ch"][0])]["decl"]["id"] == set_id:
+                idx = f.strip(f.nodes[l]["ch"][1])
+                post = f.k(idx) == "UnaryOperator" and f.nodes[idx].get("op") == "++" and f.k(f.strip(f.nodes[idx]["ch"][0])) == "DeclRefExpr" and \
+                    f.nodes[f.strip(f.nodes[idx]["ch"][0])]["decl"]["id"] == cnt_id
+                grow.append((x, post, f.render(ap[1]).replace(" ", "")))
+    ok_g = len(grow) == 1 and grow[0][1] and grow[0][2] == row_txt and f.seq(grow[0][0]) < f.seq(gc) and \
+        not any(f.k(a) in ("IfStmt", "WhileStmt", "ForStmt") and a != L and L in set(f.ancestors(a)) for a in f.ancestors(grow[0][0]))
+    C.ob("SP-5", "modify_factor_p", "free-set-grows-by-the-row-being-added", ok_g, f.loc(grow[0][0]) if grow else f.loc(L),
+         "F[nF++] = %s, unconditionally, before the column is extracted" % row_txt if ok_g else
+         "inside the row-add loop the free set is not extended by exactly the row being added before get_column is called (stores into it: %s)" % [g[2] for g in grow])
+    # nothing else moves released rows into the free set, or changes its count, between the two loops
+    bulk = []
+    for i, cal in f.calls():
+        if cal and cal["name"] in ("memcpy", "memmove", "copy", "copy_n"):
+            dst = f.args(i)[0] if cal["name"].startswith("mem") else f.args(i)[2]
+            if any(f.k(y) == "DeclRefExpr" and f.nodes[y]["decl"].get("id") == set_id for y in f.walk(dst)):
+                bulk.append(i)
+    cnt_writes = [x for x in f.walk() if f.k(x) in ("BinaryOperator", "CompoundAssignOperator") and f.nodes[x].get("op") in ("=", "+=", "-=") and
+                  f.k(f.strip(f.nodes[x]["ch"][0])) == "DeclRefExpr" and f.nodes[f.strip(f.nodes[x]["ch"][0])]["decl"]["id"] == cnt_id and f.nodes[x].get("op") == "+="]
+    C.ob("SP-5", "modify_factor_p", "no-bulk-growth-of-the-free-set", not bulk and not cnt_writes, f.loc((bulk + cnt_writes)[0]) if (bulk or cnt_writes) else f.where(),
+         "the free set grows only by the store in the row-add loop" if not bulk and not cnt_writes else
+         "%s puts several released rows into the free set at once: the columns extracted for the first of them already have entries for rows that are not in the factor yet" %
+         f.render((bulk + cnt_writes)[0])[:70])
